@@ -346,6 +346,7 @@ def group_by_hid(lines, field="hid"):
 
 def _validate_chunk(ctx, area, module, groups, hids, cfg, deque, timeout, cfg_text, max_cand, tag, quiet=False):
     rejected = []
+    accepted = 0
     cur = list(hids)
     while cur:
         flat, owner = [], []
@@ -365,13 +366,17 @@ def _validate_chunk(ctx, area, module, groups, hids, cfg, deque, timeout, cfg_te
         h = owner[stuck - 1]
         first = owner.index(h)
         rejected.append((h, json.loads(flat[stuck - 1]), [json.loads(x) for x in groups[h]], stuck - 1 - first))
-        cur = [x for x in cur if x != h]
+        # histories are independent (each starts from the monitor's reset): everything before the rejected one was
+        # accepted in this pass and need not be validated again
+        at = cur.index(h)
+        accepted += at
+        cur = cur[at + 1:]
         if len(rejected) >= max_cand:
             if not quiet and cur:
                 ctx.notes.append("%d rejected histories in one chunk of %s; remaining %d histories of that chunk not validated"
                                  % (max_cand, module, len(cur)))
-            return 0, rejected
-    return len(cur), rejected
+            return accepted, rejected
+    return accepted + len(cur), rejected
 
 
 def validate_histories(ctx, area, module, trace_path, cfg=None, field="hid", max_cand=8, deque=False,
